@@ -276,6 +276,80 @@ def run(E: Engine, rep: Report, tier: str) -> dict:
         rep.check(refers, "TABLE", f"BaseDevice._to_abstract_repr|{t_[2][1]}|elided-only-when-equal-to-default", "the condition for writing the key consults the dataclass defaults", f"BaseDevice._to_abstract_repr writes '{t_[2][1]}' only under `{_show_(l.cond)[:120]}`, which does not consult the class's own default: when the key is left out the decoder falls back to that default, so a value that differs from it (an empty tuple where the class defaults to (DMM(),)) does not round-trip", E.where(bta, l.node))
     if n_cond < 1:
         raise AnalysisError("anchor: the conditionally written key (dmm_objects) of BaseDevice._to_abstract_repr was not found")
+    # a register is written with the coordinates it holds (`_coords` / `_coords_arr`), as BaseRegister._to_dict and
+    # __eq__ read them -- not with the rounded / sorted copies kept for hashing (a 6-decimal rounding moves an atom and
+    # can make the decoded register unequal to the original)
+    n_regs = 0
+    for cq_ in ("pulser.register.register.Register", "pulser.register.register3d.Register3D"):
+        for f_ in E.cls(cq_).methods.get("_to_abstract_repr", []):
+            r_ = _S(E, f_).ret
+            if r_ is None:
+                continue
+            n_regs += 1
+            used = {t[2] for t in _subterms_(r_) if t[0] == "attr" and t[1] == ("name", "self") and "coords" in t[2]}
+            derived = used - {"_coords", "_coords_arr"}
+            rep.check(bool(used) and not derived, "TABLE", f"{cq_.split('.')[-1]}._to_abstract_repr|coordinates-as-held", "written from self._coords / self._coords_arr",
+                      f"{cq_.split('.')[-1]}._to_abstract_repr writes the coordinates from {sorted(used)}: {sorted(derived) or 'no coordinate attribute'} is a rounded / re-ordered copy kept for hashing, so the decoded register differs from the original (positions moved by up to 5e-7, or listed in another order)", E.where(f_))
+    if n_regs < 2:
+        raise AnalysisError("anchor: Register._to_abstract_repr / Register3D._to_abstract_repr not found")
+    # a decoder hands a field annotated `tuple[...]` a tuple: JSON arrays decode to lists, and a list where the class
+    # declares a tuple makes the decoded (frozen / hashable) object unequal to the original and unhashable
+    def _field_annotation(c_, name_):
+        for k_ in [c_] + E.P.mro(c_):
+            for st_ in k_.node.body:
+                if isinstance(st_, ast.AnnAssign) and isinstance(st_.target, ast.Name) and st_.target.id == name_:
+                    return ast.unparse(st_.annotation)
+        return None
+
+    n_tup = 0
+    for f_ in E.P.all_functions():
+        is_decoder = f_.module.name == "pulser.json.abstract_repr.deserializer" or f_.name in ("_from_abstract_repr", "from_abstract_repr")
+        if not is_decoder or f_.kind == "overload":
+            continue
+        for l in _S(E, f_, inline=False).log:
+            if l.kind != "call" or not l.value[3]:
+                continue
+            fn_t = l.value[1]
+            c_ = f_.cls if fn_t == ("name", "cls") else next((k_ for k_ in E.P.classes.values() if fn_t == ("name", k_.name) or (fn_t[0] == "attr" and fn_t[2] == k_.name and k_.name[0].isupper())), None) if fn_t[0] in ("name", "attr") else None
+            if c_ is None or any("__init__" in k2.methods for k2 in [c_] + E.P.mro(c_)):
+                continue  # (a hand-written __init__ converts its arguments itself)
+            for k_, v_ in l.value[3]:
+                ann = _field_annotation(c_, k_) if k_ != "**" else None
+                if not ann or ann.split("[")[0].split(".")[-1] not in ("tuple", "Tuple"):
+                    continue
+                v_ = _unobj_(v_)
+                raw = v_[0] == "idx" or (v_[0] == "call" and v_[1][0] == "attr" and v_[1][2] == "get") or v_[0] in ("list", "comp") and (v_[0] == "list" or v_[1] == "list")
+                n_tup += 1
+                rep.check(not raw, "TABLE", f"{f_.short}|{c_.name}.{k_}|decoded-as-tuple", f"{c_.name}.{k_}: {ann} receives a tuple", f"{f_.short} builds {c_.name}({k_}=`{_show_(v_)[:60]}`): the field is declared `{ann}` but the decoded JSON array (a list) is passed as it is, so the decoded object differs from the original in that field (== fails on a dataclass, and the object is unhashable)", E.where(f_, l.node))
+    if n_tup < 1:
+        raise AnalysisError("anchor: no decoder call passing a tuple-annotated field was found (expected Results._from_abstract_repr: atom_order)")
+    # decoder side of the same clause: whether an optional key is *present* is asked with `key in obj`.  Taking the
+    # truthiness of the stored value instead (`if obj.get(key):`) treats an empty list / 0 / False as absent and falls
+    # back to the class default.  On the tree the only JSON values used as conditions are booleans (table below).
+    TRUTHY_OK = {"is_virtual": "a JSON boolean: its truth value is its meaning"}
+    n_truthy = 0
+    for f_ in E.P.all_functions():
+        if f_.module.name != "pulser.json.abstract_repr.deserializer" or f_.kind == "overload":
+            continue
+        seen_l = set()
+        for l in _S(E, f_, inline=False).log:
+            for x in _sym.conj_of(l.cond):
+                y = x[1] if x[0] == "not" else x
+                key_ = None
+                if y[0] == "call" and y[1][0] == "attr" and y[1][2] == "get" and y[2] and y[2][0][0] == "const" and isinstance(y[2][0][1], str):
+                    key_ = y[2][0][1]
+                elif y[0] == "idx" and y[2][0] == "const" and isinstance(y[2][1], str):
+                    key_ = y[2][1]
+                if key_ is None or (f_.short, key_) in seen_l:
+                    continue
+                seen_l.add((f_.short, key_))
+                n_truthy += 1
+                if key_ in TRUTHY_OK:
+                    rep.ok("TABLE", f"{f_.short}|{key_}|presence-tested-by-membership", TRUTHY_OK[key_], E.where(f_, l.node))
+                else:
+                    rep.violation("TABLE", f"{f_.short}|{key_}|presence-tested-by-membership", f"{f_.short} decides on the truth value of the decoded `{_show_(y)[:60]}` (path condition of `{_show_(l.value)[:60] if l.value is not None else l.kind}`): an empty list / 0 / False stored under '{key_}' is treated like a missing key, so the decoder falls back to the class default and the object does not round-trip (e.g. a VirtualDevice with dmm_objects=() comes back with one DMM)", E.where(f_, l.node))
+    if n_truthy < 1:
+        raise AnalysisError("anchor: no boolean JSON condition (is_virtual) found in the deserializer module")
     # boolean options are stored as Python bools: EmulationConfig.__init__ hands every parameter annotated `bool`
     # to BackendConfig wrapped in bool(...) (a numpy.bool_ or 0/1 is truthy-equivalent in memory but is not a JSON /
     # schema boolean, so the configuration could no longer be serialised)
